@@ -292,7 +292,7 @@ def run(res, tier, seed, replay_script=None):
     ok_ext, elog = vlib.coq_make(["Extract/ExtractCore.vo"])
     proof_broken = (not props["ok"]) or bool(res.coverage["forbidden_tokens"])
     runner = vlib.ocaml_runner("core") if ok_ext else None
-    udrv = vlib.build_driver("unitdrv")
+    udrv, uerr = vlib.try_build_driver("unitdrv")
     gdrv = vlib.build_driver("tsgdrv")
     wd = os.path.join(vlib.BUILD, "work", PID)
     os.makedirs(wd, exist_ok=True)
@@ -307,11 +307,15 @@ def run(res, tier, seed, replay_script=None):
         ucases.append("rlint %s %d" % (rule, maxp))
     ucf = os.path.join(wd, "unit.txt")
     open(ucf, "w").write("\n".join(ucases) + "\n")
-    rc, so, se = vlib.run([udrv, ucf], timeout=600)
+    if udrv is None:
+        mism.append("white-box driver unitdrv no longer compiles against the source: " + uerr[-400:])
+        rc, so, se = 0, "", ""
+    else:
+        rc, so, se = vlib.run([udrv, ucf], timeout=600)
     open(os.path.join(wd, "unit.out"), "w").write(so)
     if rc != 0:
         res.violation("unitdrv-crash", "unitdrv exited with %d %s" % (rc, se[-300:]), {"kind": "impl-counterexample", "cases": ucf})
-    if runner:
+    if runner and udrv is not None:
         rc2, mo, me = vlib.run([runner, ucf, os.path.join(wd, "unit.out")], timeout=900)
         for line in mo.split("\n"):
             if line.startswith("MISMATCH"):
